@@ -81,6 +81,14 @@ CLAIMS = {
          "Decides that the inbox subscription is released on every return after a successful subscribe, that marshal/subscribe/publish failures return an internal error before the wait loop, "
          "that the timer arm returns ErrTimeout and a non-pre-response is parsed and returned, that a parsed timeout pre-response unconditionally stops the timer, installs one of exactly the "
          "announced milliseconds and notifies every callback, and that the pre-response key matches the service's literal. Wall-clock behaviour is not decided.", "DESIGN.md section 4 C19"),
+ "C15": ("must-reply typestate on query request handling + funnel / who-may-call census of the nil callback + value identity of the inbox subject + loop-capture rule + channel-close reachability for library goroutines",
+         "Decides that every query request path replies exactly once whatever the callback does, that requests and expiry run in the resource's group, that the nil callback has exactly two mutually "
+         "exclusive sources and a stored subscription is always registered for expiry, that one fresh inbox value is subscribed and announced, that queued closures do not share a loop variable, and "
+         "that every library goroutine ranging over a channel can terminate (query listener: known finding). Timing of late requests versus the drain is not decided.", "DESIGN.md section 4 C15"),
+ "C16": ("lockset discipline (lock-state dataflow x field access census) on the shared structures with named exemptions + logger/mock-store lock rules + shared-loop-variable rule",
+         "A discipline check, not a race proof: every Service/work field written outside configuration and initialisation is accessed only under the queue mutex or only atomically (two known "
+         "findings: Shutdown clearing nc/inCh), the in-memory logger's buffer is used under its mutex, the mock store's map only inside transaction methods, and no closure handed on from a loop "
+         "shares a re-assigned variable. Per-request objects are confined by contract and not analysed; user code and third-party modules are out of reach.", "DESIGN.md section 4 C16"),
 }
 
 NA = {
